@@ -360,3 +360,13 @@ def differential_evolution_inside_bounds(h):
     h.le("selected <= upper bounds", sol, lo + wd)
     if h.sym and not seen.get("polish"):
         h.eq("the optimiser minimises the negative score", seen["cost"], -score(sol))
+
+
+@unit("C11", quick=[dict(key="CP3"), dict(key="CP2")], thorough=[dict(key="CP4")], cost=5)
+def score_gradients_rest_on_true_kernel_gradients(h, key):
+    """'the value-and-gradient variants return the true gradient' for every kernel: the score gradients are assembled from
+    covariance_and_gradients, so they are the true gradients only if those matrices are the true partial derivatives of the
+    covariance -- also for change-point kernels with 3 and more regions, which the closed-form units above do not use.
+    Same execution as C10's gradient unit, asserted here for C11"""
+    from harness import c10
+    c10.gradients_are_partial_derivatives(h, key, 2, 1)
